@@ -431,6 +431,38 @@ func generate(cfg *hx.Config) []hx.Case {
 			}
 		}
 	}
+	// 5. lock-ups: queries and resets against heavy failing traffic, on roots that
+	// are not a group (nothing but the verifiers' own locks in play) and, as a
+	// control, below a group; a watchdog turns a lock-up into an observation
+	stressShapes := []string{"%s", "F90%cn(%s;%s2)", "F90%cn(F91%cn(%s;%s2);%s3)", "Gn(%s,%s2)"}
+	stressLoad := "8x1000"
+	if cfg.Thorough() {
+		stressLoad = "8x6000"
+	}
+	for si, shape := range stressShapes {
+		for _, lt := range leafTypes {
+			for _, root := range []string{"STRESSB", "STRESSM"} {
+				if si == 3 && root == "STRESSM" {
+					continue
+				}
+				r := rng.Fork()
+				tok := instantiate(shape, lt, filterTypes[r.Intn(len(filterTypes))])
+				tree, err := parseTree(tok)
+				if err != nil {
+					panic(tok + ": " + err.Error())
+				}
+				kind := byte('q')
+				if lt == 's' || (lt == 'h' && r.Bool()) {
+					kind = 's'
+				}
+				// a message that fails every verifier of the tree (writers are what a query can lock up against)
+				m := &message{kind: kind}
+				_ = tree
+				add("stress", []string{root, tok, m.token(), stressLoad})
+				cfg.Count("gen=stress")
+			}
+		}
+	}
 	return cases
 }
 
